@@ -281,6 +281,33 @@ def cover_radius_boundary(ck, prog):
                     else:
                         ck.violation(rule, inst, b.path, c.where, expected="near set iff d < radius or d == radius",
                                      found=f"partition classes {sorted(sorted(x) for x in cls)} of sign(d - radius)")
+        if found == 0:
+            # `drain(..).partition(|n| d(n) <= fmax)`: the comparison is the closure's return value; true = first (near) part
+            from sa.prov import subst_upvars
+            for bb, t in b.calls():
+                f = t.get("f")
+                if not (f and f["path"].endswith(("Iterator::partition", "Iterator::filter")) and len(t["args"]) == 2):
+                    continue
+                ct = cx.res.operand(t["args"][1])
+                if not (ct[0] == "agg" and ct[1].startswith("closure:")):
+                    continue
+                cb = prog.get(ct[1][len("closure:"):])
+                if cb is None:
+                    continue
+                cr = Resolver(cb)
+                cnd = guards._cond(cr, cr.local(0))
+                if not cnd:
+                    continue
+                L, rel, R = subst_upvars(prog, cb, cnd[0]), cnd[1], subst_upvars(prog, cb, cnd[2])
+                if is_radius(L) and not is_radius(R):
+                    L, R, rel = R, L, guards.FLIP[rel]
+                if is_radius(R) and not is_radius(L):
+                    found += 1
+                    if guards.ATOMS[rel] == frozenset("nz"):
+                        ck.ok(rule, inst, cb.path, b.where(bb), f"partition predicate `d {rel} cover radius`: near part iff d <= radius")
+                    else:
+                        ck.violation(rule, inst, cb.path, b.where(bb), expected="near set iff d < radius or d == radius",
+                                     found=f"partition predicate asserts sign(d - radius) in {sorted(guards.ATOMS[rel])} for the near part")
         if found != 1:
             ck.violation(rule, inst, b.path, f"{b.loc[0]}:{b.loc[1]}", expected="one comparison of a distance with the cover radius", found=f"{found}")
 
